@@ -22,22 +22,21 @@ def main():
     only = [a[7:].split(',') for a in sys.argv[1:] if a.startswith('--only=')]
     if only:
         claimed = [p for p in claimed if p in only[0]]
-    assert sh(['git', '-C', REPO, 'status', '--porcelain']).stdout.strip() == '', '/repo is not clean'
+    sys.path.insert(0, os.path.dirname(os.path.abspath(__file__)))
+    from scratch_repo import patched_copy, check_env
     for patch in [a for a in sys.argv[1:] if not a.startswith('--')]:
-        r = sh(['git', '-C', REPO, 'apply', os.path.abspath(patch)])
-        if r.returncode != 0:
-            print(patch, 'PATCH-DOES-NOT-APPLY', r.stdout[:200])
-            continue
-        alarms = []
         try:
-            for p in claimed:
-                out = sh([os.path.join(VERIF, 'check'), p, '--tier', 'quick'], cwd=VERIF).stdout
-                v = [l for l in out.splitlines() if l.startswith('VIOLATION')]
-                if v:
-                    alarms.append((p, v[0]))
-        finally:
-            sh(['git', '-C', REPO, 'checkout', '--', '.'])
-        print(patch, 'SILENT' if not alarms else 'ALARMS: ' + '; '.join('%s [%s]' % a for a in alarms))
+            with patched_copy(patch) as root:
+                alarms = []
+                for p in claimed:
+                    out = sh([os.path.join(VERIF, 'check'), p, '--tier', 'quick'], cwd=VERIF, env=check_env(root)).stdout
+                    v = [l for l in out.splitlines() if l.startswith('VIOLATION')]
+                    if v:
+                        alarms.append((p, v[0]))
+        except RuntimeError as ex:
+            print(patch, 'PATCH-DOES-NOT-APPLY', str(ex)[:200])
+            continue
+        print(patch, 'SILENT' if not alarms else 'ALARMS: ' + '; '.join('%s [%s]' % a for a in alarms), flush=True)
     return 0
 
 
